@@ -30,8 +30,11 @@ func (r *rng) u64() uint64 {
 }
 func (r *rng) bytes(n int) []byte {
 	b := make([]byte, n)
-	for i := range b {
-		b[i] = byte(r.u64() >> 33)
+	for i := 0; i < n; i += 8 {
+		v := r.u64()
+		for k := 0; k < 8 && i+k < n; k++ {
+			b[i+k] = byte(v >> (8 * k))
+		}
 	}
 	return b
 }
@@ -39,25 +42,41 @@ func (r *rng) bytes(n int) []byte {
 // PadEvents returns, in execution order, the number of left-pad bytes of every step-6.C addition that
 // is shorter than v bytes (no carry out of the top byte and at least one leading zero byte).
 func PadEvents(salt, pw []byte, iter int, id byte, size int) []int {
-	fill := func(p []byte) []byte {
-		if len(p) == 0 {
-			return nil
-		}
-		out := make([]byte, 64*((len(p)+63)/64))
-		for i := range out {
-			out[i] = p[i%len(p)]
-		}
-		return out
+	var st scratch
+	return st.padEvents(salt, pw, iter, id, size)
+}
+
+type scratch struct {
+	buf []byte // D ‖ I
+	ev  []int
+}
+
+func (st *scratch) padEvents(salt, pw []byte, iter int, id byte, size int) []int {
+	ns, np := 0, 0
+	if len(salt) > 0 {
+		ns = 64 * ((len(salt) + 63) / 64)
 	}
-	I := append(fill(salt), fill(pw)...)
-	D := make([]byte, 64, 64+len(I))
-	for i := range D {
-		D[i] = id
+	if len(pw) > 0 {
+		np = 64 * ((len(pw) + 63) / 64)
+	}
+	if cap(st.buf) < 64+ns+np {
+		st.buf = make([]byte, 64+ns+np)
+	}
+	buf := st.buf[:64+ns+np]
+	for i := 0; i < 64; i++ {
+		buf[i] = id
+	}
+	I := buf[64:]
+	for i := 0; i < ns; i++ {
+		I[i] = salt[i%len(salt)]
+	}
+	for i := 0; i < np; i++ {
+		I[ns+i] = pw[i%len(pw)]
 	}
 	c := (size + 19) / 20
-	var ev []int
+	ev := st.ev[:0]
 	for i := 0; i < c-1; i++ {
-		a := sha1.Sum(append(D[:64], I...))
+		a := sha1.Sum(buf)
 		for k := 1; k < iter; k++ {
 			a = sha1.Sum(a[:])
 		}
@@ -71,17 +90,16 @@ func PadEvents(salt, pw []byte, iter int, id byte, size int) []int {
 				x := int(I[j+k]) + int(B[k]) + carry
 				I[j+k], carry = byte(x), x>>8
 			}
-			if carry == 0 {
+			if carry == 0 && I[j] == 0 {
 				z := 0
 				for z < 64 && I[j+z] == 0 {
 					z++
 				}
-				if z > 0 {
-					ev = append(ev, z)
-				}
+				ev = append(ev, z)
 			}
 		}
 	}
+	st.ev = ev
 	return ev
 }
 
@@ -103,16 +121,23 @@ type shape struct {
 
 func main() {
 	shapes := []shape{
-		// what the package itself derives: 8-byte salt, BMP password, 24-byte 3DES key (two rounds, two blocks)
+		// what the package itself derives: 8-byte salt, BMP password, 24-byte 3DES key (one round, two blocks: ~2^-24)
 		{saltLen: 8, pwLen: 0, bmpEmpty: true, iter: 1, size: 24, want: 4, ids: []byte{1}},
-		{saltLen: 8, pwLen: 14, iter: 1, size: 24, want: 4, ids: []byte{1, 2, 3}},
-		{saltLen: 8, pwLen: 14, iter: 3, size: 24, want: 2, ids: []byte{1}},
+		{saltLen: 8, pwLen: 14, iter: 1, size: 24, want: 3, ids: []byte{1, 2, 3}},
 		// more blocks and more rounds
 		{saltLen: 20, pwLen: 130, iter: 1, size: 24, want: 6, ids: []byte{1, 2, 3}},
-		{saltLen: 64, pwLen: 64, iter: 1, size: 24, want: 4, ids: []byte{1, 2, 3}},
+		{saltLen: 64, pwLen: 64, iter: 1, size: 24, want: 3, ids: []byte{1, 2, 3}},
 		{saltLen: 8, pwLen: 30, iter: 2, size: 40, want: 8, ids: []byte{1, 2, 3}},
 		{saltLen: 8, pwLen: 16, iter: 1, size: 64, want: 10, ids: []byte{1, 2, 3}},
-		{saltLen: 40, pwLen: 200, iter: 1, size: 61, want: 12, ids: []byte{1, 2, 3}},
+		{saltLen: 40, pwLen: 200, iter: 1, size: 61, want: 14, ids: []byte{1, 2, 3}},
+		{saltLen: 8, pwLen: 2, iter: 1, size: 44, want: 4, ids: []byte{1, 2, 3}},
+	}
+	if len(os.Args) > 1 { // skip the first n shapes (already in the corpus)
+		var n int
+		fmt.Sscan(os.Args[1], &n)
+		for i := 0; i < n && i < len(shapes); i++ {
+			shapes[i].want = 0
+		}
 	}
 	var mu sync.Mutex
 	for si, sh := range shapes {
@@ -122,7 +147,8 @@ func main() {
 			wg.Add(1)
 			go func(w int) {
 				defer wg.Done()
-				r := &rng{s: uint64(si)*1000003 + uint64(w)*7919 + 12345}
+				r := &rng{s: uint64(si)*1000003 + uint64(w)*7919 + 99991}
+				var st scratch
 				for {
 					mu.Lock()
 					done := found >= sh.want
@@ -146,7 +172,7 @@ func main() {
 							}
 						}
 						id := sh.ids[int(r.u64()%uint64(len(sh.ids)))]
-						ev := PadEvents(salt, pw, sh.iter, id, sh.size)
+						ev := st.padEvents(salt, pw, sh.iter, id, sh.size)
 						if len(ev) >= 2 && Increasing(ev) {
 							mu.Lock()
 							if found < sh.want {
